@@ -245,12 +245,26 @@ fn dir(name: &'static str, f: fn() -> Option<PathBuf>) -> FunctionResult {
   }
 }
 
+fn format_datetime<Tz: chrono::TimeZone>(
+  datetime: &chrono::DateTime<Tz>,
+  format: &str,
+) -> FunctionResult
+where
+  Tz::Offset: Display,
+{
+  let mut formatted = String::new();
+  // `to_string()` panics when chrono rejects the format string
+  fmt::write(&mut formatted, format_args!("{}", datetime.format(format)))
+    .map_err(|_| format!("invalid datetime format `{format}`"))?;
+  Ok(formatted)
+}
+
 fn datetime(_context: Context, format: &str) -> FunctionResult {
-  Ok(chrono::Local::now().format(format).to_string())
+  format_datetime(&chrono::Local::now(), format)
 }
 
 fn datetime_utc(_context: Context, format: &str) -> FunctionResult {
-  Ok(chrono::Utc::now().format(format).to_string())
+  format_datetime(&chrono::Utc::now(), format)
 }
 
 fn encode_uri_component(_context: Context, s: &str) -> FunctionResult {
